@@ -244,6 +244,81 @@ def applications():
                            ARR(it, dt) if (kt == it and vt == dt) else None, True)
 
 
+def constant_applications():
+    """Constant constructors at and around the boundaries of their documented domains.
+    -> (label, thunk(mgr), expected (type, value) | None = must be rejected)"""
+    for w in (1, 2, 8, 33):
+        M = 1 << w
+        for v in (-1, 0, 1, M - 1, M, M + 1, 2 * M):
+            ok = 0 <= v < M
+            yield ("BV(%d, %d)" % (v, w), lambda m, v=v, w=w: m.BV(v, w), (BV(w), v) if ok else None)
+            yield ("BV(%d, width=%d)" % (v, w), lambda m, v=v, w=w: m.BV(v, width=w), (BV(w), v) if ok else None)
+        H = M >> 1
+        for v in (-H - 1, -H, -1, 0, H - 1, H, M - 1, M):
+            ok = -H <= v <= H - 1
+            yield ("SBV(%d, %d)" % (v, w), lambda m, v=v, w=w: m.SBV(v, w), (BV(w), v % M) if ok else None)
+        for bits in ("0" * w, "1" * w, "1" + "0" * (w - 1)):
+            yield ("BV(%r)" % bits, lambda m, b=bits: m.BV(b), (BV(w), int(bits, 2)))
+            yield ("BV('#b%s')" % bits, lambda m, b=bits: m.BV("#b" + b), (BV(w), int(bits, 2)))
+            yield ("BV(%r, %d)" % (bits, w + 1), lambda m, b=bits, w=w: m.BV(b, w + 1), None)
+        yield ("BV('', %d)" % w, lambda m, w=w: m.BV("012", w), None)
+        yield ("BV(1.0, %d)" % w, lambda m, w=w: m.BV(1.0, w), None)
+        yield ("BVZero(%d)" % w, lambda m, w=w: m.BVZero(w), (BV(w), 0))
+        yield ("BVOne(%d)" % w, lambda m, w=w: m.BVOne(w), (BV(w), 1))
+    yield ("BV(1) without width", lambda m: m.BV(1), None)
+    for v, ok in ((0, True), (-7, True), (2 ** 70, True), (1.5, False), (1.0, False), (Fraction(1, 2), False),
+                  (Fraction(2), False), ("1", False), (True, False), (None, False)):
+        yield ("Int(%r)" % (v,), lambda m, v=v: m.Int(v), (INT, v) if ok else None)
+    for v, want in ((0, Fraction(0)), (-7, Fraction(-7)), (Fraction(-3, 4), Fraction(-3, 4)), (0.5, Fraction(1, 2)),
+                    (0.1, Fraction(0.1)), ((1, 3), Fraction(1, 3)), ((2, -4), Fraction(-1, 2)), ((1, 0), None),
+                    ("1/2", None), (True, None), (None, None)):
+        yield ("Real(%r)" % (v,), lambda m, v=v: m.Real(v), (REAL, want) if want is not None else None)
+    for v, ok in ((True, True), (False, True), (1, False), (0, False), ("true", False), (None, False)):
+        yield ("Bool(%r)" % (v,), lambda m, v=v: m.Bool(v), (BOOL, v) if ok else None)
+    for v, ok in (("", True), ("a b", True), ('q"q', True), (1, False), (None, False), (b"x", False)):
+        yield ("String(%r)" % (v,), lambda m, v=v: m.String(v), (STRING, v) if ok else None)
+
+
+def shard_constants():
+    run = Run(PID)
+    # each application in a fresh environment and, again, in one that already holds equal-valued constants of
+    # other sorts (the constant caches are keyed by value)
+    for warm in (False, True):
+        for label, thunk, expected in constant_applications():
+            env = Environment()
+            with env:
+                m = env.formula_manager
+                if warm:
+                    for k in (0, 1, 2, 7):
+                        m.Int(k), m.Real(k), m.BV(k % 2, 1), m.BV(k, 8)
+                    m.Bool(True), m.Bool(False), m.Real(Fraction(1, 2)), m.String("1")
+                try:
+                    r = thunk(m)
+                    raised = None
+                except Exception as e:
+                    raised = e
+                lab = label + (" (warm caches)" if warm else "")
+                run.case(key=lab, nontrivial=True, sample={"application": lab, "outcome": "raised" if raised else str(r)}
+                         if expected is None and not warm and len(lab) < 16 else None)
+                run.cls("constant-ctor:" + ("rejected" if raised else "returned"))
+                case = {"constant": label, "warm": warm}
+                if expected is None:
+                    if raised is None:
+                        run.fail({"subcheck": "constant:accepted-out-of-domain", "ctor": label.split("(")[0]}, case,
+                                 "%s returned %s : %s although the value is outside the constructor's domain" % (lab, r, r.get_type()))
+                    continue
+                if raised is not None:
+                    run.fail({"subcheck": "constant:rejected-in-domain", "ctor": label.split("(")[0]}, case,
+                             "%s raised %s: %s" % (lab, type(raised).__name__, raised))
+                    continue
+                ty, v = expected
+                if not r.is_constant() or pys.from_ptype(r.get_type()) != ty or r.constant_value() != v \
+                        or (isinstance(v, bool) != isinstance(r.constant_value(), bool)):
+                    run.fail({"subcheck": "constant:wrong-constant", "ctor": label.split("(")[0]}, case,
+                             "%s returned %s : %s, expected %r : %r" % (lab, r, r.get_type(), v, ty))
+    return run
+
+
 def _zero(t):
     if t == BOOL:
         return False
@@ -455,6 +530,7 @@ def main():
     jobs = [(shard_constructors, dict(shard=s, nshards=8)) for s in range(8)]
     for s in range(8):
         jobs.append((shard_closure, dict(shard=s, seed=chk.seed, n=8000 if thorough else 600)))
+    jobs.append((shard_constants, dict()))
     chk.add(run_shards(jobs))
     chk.exhaustive.append("constructor x basis-sort tuples x parameter values (all %d applications)" % sum(1 for _ in applications()))
     chk.floor("rejected-illtyped", 20000)
